@@ -43,6 +43,11 @@ def gen(rng, tier):
     add(2, 32, 0, 8192, *good, "reject/ops", "err"); add(2, 32, 1, 8191, *good, "reject/mem", "err"); add(2, 32, 1, 0, *good, "reject/mem", "err")
     add(2, 32, 1, 8192, good[0], rbytes(rng, 7), "reject/salt", "err"); add(2, 32, 1, 8192, good[0], rbytes(rng, 8), "accept/salt", "ok")
     add(2, 32, 4294967296, 8192, *good, "reject/ops", "err")
+    # memory sizes across 2³¹ bytes (2 GiB: where a 32-bit quantity in the memory arithmetic would give out): accepted and equal to
+    # libsodium (implementation and libsodium only — the Lean driver does not evaluate gigabyte instances; the bounds themselves are
+    # in the translated Pwhash kernel)
+    for memb in ([2 ** 31 + 4096] if tier == "quick" else [2 ** 31 - 4096, 2 ** 31, 2 ** 31 + 4096, 2 ** 32 + 8192]):
+        cs.append(Case("pwhash_big 2 32 1 %d %s %s" % (memb, hx(good[0]), hx(good[1])), cls="accept/mem-over-2GiB", expect="ok", meta={"no_spec": True}))
     # 64-bit cost parameters whose LOW 32 bits look valid: the range check applies to the caller's value, not to the truncated one
     for ops in (2 ** 32 + 1, 2 ** 32 + 3, 2 ** 33 + 2, 2 ** 40 + 1, 2 ** 63 + 1):
         for alg in (1, 2):
